@@ -244,7 +244,7 @@ class Gen:
                          "ttl": r.choice(OUT_TTLS) if history_ok else r.choice(OUT_TTLS + ["head:1", "head:2"]),
                          "ctx_ref": r.choice([None, None, None, r.randint(0, self.nctx)]),
                          "content": r.choice([None, "c", "c{n}", "x y"])})
-        ret = r.choice(RETS)
+        ret = r.choice(RETS + SCOPE_PROBES)
         fail = r.random() < 0.12
         return {"topic": topic, "appends": apps, "ret_nu": ret[0], "ret": ret[1], "fail": fail,
                 "fail_at": r.randint(0, 3), "slow_ms": r.choice([0, 0, 0, 20, 40])}
@@ -267,7 +267,7 @@ class Gen:
             cands = [i for i, s in enumerate(self.steps) if s["k"] == "append"]
             res = {"after": r.choice(cands)}
         return {"rules": rules, "resume": res, "env0": r.choice([0, 0, 5]),
-                "suffix": r.choice([None, None, ".x", ".res.y"]),
+                "suffix": r.choice([None, None, ".x", ".res.y", "-r", "x"]),
                 "ttl": r.choice([None, None, "forever", "time:600000"] + ([] if history_ok else ["head:1", "head:2", "ephemeral"]))}
 
     def step_append(self):
@@ -301,6 +301,8 @@ class Gen:
             {"values_nu": [CMD_VALUES[5], CMD_VALUES[6]], "appends": []},
         ]
         sp = json.loads(json.dumps(r.choice(pool)))
+        if r.random() < 0.3 and not sp.get("fail") and sp.get("shape") is None:
+            sp["values_nu"] = sp["values_nu"] + [list(x) for x in SCOPE_PROBES]
         if r.random() < 0.4:
             m = r.choice([None, ('{k: "v"}', [["k", '"v"']]), ('{command_id: "zz", frame_id: "me"}', [["command_id", '"zz"'], ["frame_id", '"me"']])])
             sp["appends"].append({"topic": r.choice(["out1", "o.x"]), "meta_nu": m[0] if m else None, "meta": m[1] if m else None,
@@ -320,6 +322,8 @@ class Gen:
         """commands and generators (C18 / C19): defines, calls (sequential and concurrent), spawns, sends, restarts"""
         r = self.r
         cnames, gnames = ["c", "d.e"], ["g", "s.t"]
+        for c in range(self.nctx + 1):
+            self.steps.append({"k": "append", "topic": "tick", "ctx": c, "meta": None, "content": None, "ttl": None})
         if r.random() < 0.4:
             for _ in range(r.randint(1, 3)):
                 self.steps.append({"k": "define", "name": r.choice(cnames), "ctx": self.ctx(), "spec": self.command_spec()})
@@ -369,6 +373,9 @@ class Gen:
             return self.build_services()
         r = self.r
         history_ok = self.profile != "ttl"
+        for c in range(self.nctx + 1):                 # every context holds a `tick` from the start (scope probes)
+            self.steps.append({"k": "append", "topic": "tick", "ctx": c, "meta": None, "content": None, "ttl": None})
+            self.n_append += 1
         for _ in range(r.choice([0, 0, 2, 5])):       # a pre-existing history
             self.step_append()
         self.steps.append({"k": "serve"})
@@ -630,10 +637,8 @@ def canon_out(f, known_ids):
         own = hex_to_b36(f["ctx"])
         if content == '"{scope:cat}"':                 # model side: `.cat` shows the script's own context only
             content = json.dumps("cat:" + own)
-        elif content == '"{scope:head}"':              # model side: `.head` finds a frame of its own context or nothing
-            content = "<head:own-or-none>"
-        elif content in (json.dumps("head:" + own), '"head:none"'):
-            content = "<head:own-or-none>"
+        elif content == '"{scope:head}"':              # model side: `.head tick` finds the tick of its own context
+            content = json.dumps("head:" + own)
     return (f["topic"], f["ctx"], tuple(sorted(meta.items())), f.get("ttl") or "forever", content)
 
 
@@ -847,6 +852,10 @@ def analyse(sc, res, drv):
                         props.append("C15")
                 if any(x[1] != cfg["ctx"] for x in actual):
                     props.append("C06")
+                # a scope probe (`.cat` / `.head` inside the script) that saw another context
+                probe = lambda l: [x[4] for x in l if isinstance(x[4], str) and x[4].startswith(('"cat:', '"head:'))]
+                if probe(want_o) != probe(actual) and "C06" not in props:
+                    props.append("C06")
                 if len(actual) > len(want_o) and m["state"] == "stopped":
                     props.append("C16")
                 fnd.append({"kind": "outputs", "props": props, "epoch": e, "handler": hid[-6:], "name": st["name"],
@@ -901,6 +910,9 @@ def analyse_commands(sc, res, drv, e, hist, live, known_ids):
         cf = all_ids.get(cause)
         props = ["C19"]
         if cf is not None and any(x[1] != cf["ctx"] for x in g if x[0].endswith((".recv", ".complete", ".error"))):
+            props.append("C06")
+        probe = lambda l: [x[4] for x in l if isinstance(x[4], str) and x[4].startswith(('"cat:', '"head:'))]
+        if probe(w) != probe(g) and "C06" not in props:
             props.append("C06")
         if cf is not None and cf in hist and g and not w:
             why = "a call stored before the restart was executed again"
